@@ -54,7 +54,9 @@ deriving Repr, Inhabited
 
 def Schema.sumOf (sch : Schema) (k : Nat) : Option Nat := (sch.kinds[k]?).bind (·.sum)
 
-def Schema.nfields (sch : Schema) (k : Nat) : Nat := ((sch.kinds[k]?).map (·.fields.length)).getD 0
+def Schema.fieldsOf (sch : Schema) (k : Nat) : List Shape := ((sch.kinds[k]?).map (·.fields)).getD []
+
+def Schema.nfields (sch : Schema) (k : Nat) : Nat := (sch.fieldsOf k).length
 
 /-- is `k` a stmt / expr / pattern / excepthandler node kind -/
 def Schema.isInteresting (sch : Schema) (k : Nat) : Bool :=
@@ -277,27 +279,29 @@ def carryClosed (sch : Schema) (carry : List Nat) : Bool :=
   (List.range sch.kinds.length).all fun k =>
     carry.contains k ||
       (!sch.isInteresting k &&
-       ((sch.kinds[k]?).map (·.fields)).getD [] |>.all fun s => !shapeCarries sch carry s)
+       (sch.fieldsOf k).all fun s => !shapeCarries sch carry s)
 
-/-- `need` contains every interesting kind and every carrying kind reachable from it -/
-def neededClosed (sch : Schema) (carry need : List Nat) : Bool :=
+/-- `need` contains every interesting kind and every carrying kind reachable from it without
+    passing through a kind in `skip` -/
+def neededClosed (sch : Schema) (carry need skip : List Nat) : Bool :=
   (List.range sch.kinds.length).all fun k =>
     (!sch.isInteresting k || need.contains k) &&
-    (!need.contains k ||
-      (((sch.kinds[k]?).map (·.fields)).getD [] |>.all fun s =>
+    (!need.contains k || skip.contains k ||
+      ((sch.fieldsOf k).all fun s =>
         (kindsUnder sch s).all fun k' => !carry.contains k' || need.contains k'))
 
 /-- the visit method of kind `k` visits every carrying field exactly once (and nothing out of range) -/
 def visitEntryOk (sch : Schema) (carry : List Nat) (p : VisitProg) (k : Nat) : Bool :=
-  let fields := ((sch.kinds[k]?).map (·.fields)).getD []
+  let fields := sch.fieldsOf k
   (p.calls k).all (fun i => i < fields.length) &&
   (List.range fields.length).all fun i =>
     !shapeCarries sch carry (fields[i]?.getD .leaf) || (p.calls k).count i == 1
 
 /-- Well-formedness of the visitor program except for the kinds in `skip`, whose visit methods are
-    called but have an empty body. -/
+    called but have an empty body.  `carry` and `need` are certificates (closure checked here). -/
 def visitWFb (p : VisitProg) (sch : Schema) (carry need skip : List Nat) : Bool :=
-  carryClosed sch carry && neededClosed sch carry need &&
+  carryClosed sch carry && neededClosed sch carry need skip &&
+  p.dispatch.all (fun d => d.1 == d.2) &&
   need.all fun k =>
     p.target sch k == some k &&
     (if skip.contains k then (p.calls k).isEmpty else visitEntryOk sch carry p k)
@@ -365,24 +369,38 @@ def tupleText (vals : List (List Nat)) : List Nat :=
   "Tuple([".toUTF8.toList.map (·.toNat) ++ joinBytes [44, 32] vals ++ [93, 41]
 
 namespace Opt
+/-- the `Constant(ExprConstant { value: Constant::Tuple(..), kind: None, range })` node built from
+    constant elements -/
+def mkConst (c : OptCfg) (r : Option Range) (elts : List Tree) : Tree :=
+  .node c.const r [.leaf (tupleText (elts.map constValue)), .none]
+
+/-- the `elts` of an `ExprTuple` field list `[elts, ctx]` -/
+def eltsOf : List Tree → Option (List Tree)
+  | [.list elts, _] => some elts
+  | _ => none
+
+/-- the `ctx` leaf text of an `ExprTuple` field list `[elts, ctx]` -/
+def ctxOf : List Tree → Option (List Nat)
+  | [_, .leaf a] => some a
+  | _ => none
+
+/-- the `Expr::Tuple` arm of `ConstantOptimizer::fold_expr`, given the already optimised fields:
+    the context field is NOT consulted, as in the Rust code -/
+def tupleStep (c : OptCfg) (k : Nat) (r : Option Range) (fs' : List Tree) : Tree :=
+  if k == c.tuple then
+    match eltsOf fs' with
+    | some elts => if elts.all (isConstNode c) then mkConst c r elts else .node k r fs'
+    | none => .node k r fs'
+  else .node k r fs'
+
 mutual
-/-- `ConstantOptimizer::fold_expr` applied through the generated fold to a whole tree: a tuple
-    whose (already optimised) elements are all constants becomes a tuple constant — the context
-    field is NOT consulted, as in the Rust code -/
+/-- `ConstantOptimizer` applied through the generated fold to a whole tree -/
 def constTuple (c : OptCfg) : Tree → Tree
   | .leaf a => .leaf a
   | .none => .none
   | .some t => .some (constTuple c t)
   | .list xs => .list (constTupleL c xs)
-  | .node k r fs =>
-    if k == c.tuple then
-      match constTupleL c fs with
-      | [.list elts, ctx] =>
-        if elts.all (isConstNode c) then
-          .node c.const r [.leaf (tupleText (elts.map constValue)), .none]
-        else .node k r [.list elts, ctx]
-      | fs' => .node k r fs'
-    else .node k r (constTupleL c fs)
+  | .node k r fs => tupleStep c k r (constTupleL c fs)
 def constTupleL (c : OptCfg) : List Tree → List Tree
   | [] => []
   | t :: ts => constTuple c t :: constTupleL c ts
